@@ -319,6 +319,7 @@ class Extractor:
         self.scanners = scanners
         self.cut = cut
         self.memo = {}
+        self.tagged = {}
         self.stack = []
         self.loopc = 0
         self.trim = False
@@ -349,10 +350,11 @@ class Extractor:
         try:
             env = dict(binds or {})
             lf = self.block(f['body'], 0, {'next': None}, env, tail=True)
-            bad = [k for k in lf if k != 'RET']
+            bad = [k for k in lf if not str(k).startswith('RET')]
             if bad:
                 raise Unmodelled('unresolved continuation %s in %s' % (bad, name))
-            r = lf.get('RET', EMPTY)
+            r = alt(*[v for k, v in lf.items()]) if lf else EMPTY
+            self.tagged[key] = {k: v for k, v in lf.items()}
         finally:
             self.stack.pop()
         self.memo[key] = r
@@ -542,13 +544,28 @@ class Extractor:
     def cond(self, c, env):
         """[(regex consumed, truth value, env)] outcomes of evaluating a condition"""
         k = c.get('k')
+        if k == 'try' and (c.get('expr') or {}).get('k') == 'call':
+            # `if helper(input)? { .. }`: a parser helper that answers with a boolean
+            call = c['expr']
+            fn = (call['func'] if isinstance(call['func'], str) else A.text(call['func'])).split('::<')[0].split('::')[-1]
+            if fn in self.fns and self.is_parser_fn(fn) and fn not in self.scanners and fn not in LEXICAL:
+                self.call_lang(fn, call.get('args') or [], env)
+                tg = None
+                for key_, v_ in self.tagged.items():
+                    if key_[0] == fn:
+                        tg = v_
+                if tg and set(tg) <= {'RET:true', 'RET:false'}:
+                    return [(tg.get('RET:true', EMPTY), True, env), (tg.get('RET:false', EMPTY), False, env)]
         if k == 'unary' and c.get('op') == '!':
             return [(r, (None if t is None else not t), en) for r, t, en in self.cond(c['expr'], env)]
         if k == 'mcall':
             m = c['method']
             if m == 'is_empty' and not c.get('args'):
-                rt = A.text(c['recv'])
-                if 'input' in rt or rt in env.get('__inputs__', ()):
+                rt = A.text(c['recv']).replace('*', '').strip()
+                rk = c['recv'].get('k')
+                is_acc = isinstance(env.get(rt), tuple) and env[rt][0] == 'vec'
+                if 'input' in rt or (rk in ('path', 'unary') and not is_acc and '.' not in rt):
+                    # the unparsed rest of the text (a byte slice local, whatever its name); accumulators are known from their `Vec::new()`
                     return [(EOF, True, env), (EPS, False, env)]
             if m in ('is_ok', 'is_err', 'is_some', 'is_none'):
                 r = self.application(c['recv'], env)
@@ -677,12 +694,18 @@ class Extractor:
             pat = (st.get('pat') or '').replace('mut ', '').strip()
             if init is None:
                 return rest(env)
+            if st.get('else') is not None and init.get('k') == 'path' and isinstance(env.get(init.get('text')), tuple) and env[init['text']][0] == 'res':
+                okpat = pat.replace(' ', '').startswith(('Ok(', 'Some('))
+                tag = env[init['text']][1]
+                if (tag == 'Ok') == okpat:
+                    return rest(env)
+                return self.block(self._else_stmts(st), 0, dict(K, next=DEAD), env, False)
             if st.get('else') is not None:
                 # let PAT = expr else { diverge };
                 r = self.application(init, env)
                 if r is not None:
                     okpat = pat.replace(' ', '').startswith(('Ok(', 'Some('))
-                    els = self.block(st['else'], 0, dict(K, next=DEAD), env, False)
+                    els = self.block(self._else_stmts(st), 0, dict(K, next=DEAD), env, False)
                     return lf_alt(lf_cat(r, rest(env)) if okpat else els, els if okpat else lf_cat(r, rest(env)))
             r = self.application(init, env)
             if r is not None:
@@ -694,6 +717,11 @@ class Extractor:
                 return lf_alt(lf_cat(r, rest(e_ok)), rest(e_er))
             if init.get('k') in ('if', 'match', 'block', 'loop', 'unsafe'):
                 return self.stmt_expr(init, lambda en: rest(en), K, env, tail=False)
+            it_ = A.text(init)
+            if init.get('k') in ('call', 'macro', 'mcall') and (it_.startswith(('Vec::', 'vec!', 'alloc::vec::Vec::', 'Default::default', 'Members::default')) or init.get('name') == 'vec'):
+                env = dict(env)
+                env[pat] = ('vec',)
+                return rest(env)
             if init.get('k') == 'path' and self.is_parser_fn(init['text'].split('::')[-1]):
                 env = dict(env)
                 env[pat] = ('fn', init['text'].split('::')[-1])
@@ -727,6 +755,14 @@ class Extractor:
         if last and tail and K.get('next') is None and st.get('semi') is False:
             return self.value(st, K, env, tail)
         return lf_cat(self.pure(st, env), rest(env))
+
+    def _else_stmts(self, st):
+        e = st.get('else')
+        if isinstance(e, dict) and e.get('k') == 'block':
+            return e.get('body') or []
+        if isinstance(e, list):
+            return e
+        return [self.as_stmt(e)]
 
     def looks_like_combinator(self, e):
         if e.get('k') == 'call':
@@ -829,7 +865,10 @@ class Extractor:
             fn = e['func'] if isinstance(e['func'], str) else A.text(e['func'])
             base = fn.split('::')[-1]
             if base == 'Ok':
-                return lf_cat(cat(*[self.pure(a, env) for a in e.get('args') or []]), RET)
+                args_ = e.get('args') or []
+                if len(args_) == 1 and args_[0].get('k') == 'bool':
+                    return {'RET:true' if args_[0].get('value') else 'RET:false': EPS}
+                return lf_cat(cat(*[self.pure(a, env) for a in args_]), RET)
             if base == 'Err':
                 return DEAD
         if k in ('if', 'match', 'block', 'unsafe', 'loop', 'while'):
